@@ -233,13 +233,13 @@ def expected(case):
             return hx(iroot(I(0), n)) if I(0) >= 0 else hx(-iroot(-I(0), n))
         if op in ("uis_multiple_of", "iis_multiple_of"):
             return "true" if (I(0) == 0 if I(1) == 0 else I(0) % I(1) == 0) else "false"
-        if op in ("uand", "iand"):
+        if op in ("uand", "iand", "iand_assign", "iand_vr", "uand_assign"):
             return hx(I(0) & I(1))
-        if op in ("uor", "ior"):
+        if op in ("uor", "ior", "ior_assign", "ior_vr", "uor_assign"):
             return hx(I(0) | I(1))
-        if op in ("uxor", "ixor"):
+        if op in ("uxor", "ixor", "ixor_assign", "ixor_vr", "uxor_assign"):
             return hx(I(0) ^ I(1))
-        if op == "inot":
+        if op in ("inot", "inot_ref"):
             return hx(~I(0))
         if op in ("ushl", "ishl"):
             return hx(I(0) << I(1))
@@ -585,18 +585,29 @@ def bank(pid, tier, seed):
                 cases.append(("uto_str", hx(a), hx(r)))
     elif pid == "C07":
         for a, b in signed(pairs(5)):
-            for op in ("iand", "ior", "ixor"):
+            for op in ("iand", "ior", "ixor", "iand_assign", "ior_assign", "ixor_assign", "iand_vr", "ior_vr", "ixor_vr"):
                 cases.append((op, hx(a), hx(b)))
+                cases.append((op, hx(b), hx(a)))
             cases.append(("inot", hx(a)))
+            cases.append(("inot_ref", hx(a)))
             for k in (0, 1, 63, 64, 65, 127, 128, 200):
                 cases.append(("ishl", hx(a), hx(k)))
                 cases.append(("ishr", hx(a), hx(k)))
                 cases.append(("ibit", hx(a), hx(k)))
                 cases.append(("iset_bit", hx(a), hx(k), "1"))
                 cases.append(("iset_bit", hx(a), hx(k), "0"))
+        # powers of two and their neighbours across digit boundaries, all sign pairs, both operand orders
+        P2S = [(1 << k) + d for k in (0, 1, 63, 64, 65, 127, 128, 129, 192, 256) for d in (-1, 0, 1) if (1 << k) + d > 0]
+        for x in P2S:
+            for y in P2S:
+                for sa in (1, -1):
+                    for sb in (1, -1):
+                        for op in ("iand_assign", "ior_assign", "ixor_assign"):
+                            cases.append((op, hx(sa * x), hx(sb * y)))
         for a, b in pairs(6):
-            for op in ("uand", "uor", "uxor"):
+            for op in ("uand", "uor", "uxor", "uand_assign", "uor_assign", "uxor_assign"):
                 cases.append((op, hx(a), hx(b)))
+                cases.append((op, hx(b), hx(a)))
             for k in (0, 1, 63, 64, 65, 130):
                 cases.append(("ushl", hx(a), hx(k)))
                 cases.append(("ushr", hx(a), hx(k)))
